@@ -82,16 +82,16 @@ func goEnv() []string {
 }
 
 type built struct {
-	scratch string
-	worker  string
-	worker2 string // same sources built by a second toolchain (thorough tier), "" if none
-	goVer2  string
-	hotFile string
-	nhot    int
+	scratch   string
+	worker    string
+	worker2   string // same sources built by a second toolchain (thorough tier), "" if none
+	goVer2    string
+	hotFile   string
+	nhot      int
 	constFile string
-	rep     *InstrumentReport
-	nsites  int
-	goVer   string
+	rep       *InstrumentReport
+	nsites    int
+	goVer     string
 }
 
 // prepare instruments a copy of the working tree and builds the worker.
